@@ -309,7 +309,65 @@ def gen_scenario(rng, knobs=None):
                         if sc_ is dflt:
                             continue          # default scripts stay pure
                         acts.insert(pos, ["yield"])
-    return {"evstyle": style, "mixed": mixed, "values": values, "async": acoro, "falsy_machine": rng.random() < K["falsy_machine"], "n": n, "initial": initial, "finals": finals, "ne": ne, "trans": trans, "states": states,
+    # other ways of attaching the machine's own callbacks (names no other provider has): function
+    # objects instead of names; `@state.enter / .exit def f`; `@tr.before / .on / ... def f`
+    others_ = {tuple(nm) for prov in provs[1:] for nm in prov}
+    sole = [nm for nm in provs[0] if nm[0] == 0 and nm[1] < 500 and tuple(nm) not in others_]
+    callable_names = [list(nm) for nm in sole if rng.random() < K.get("callable_refs", 0.0)]
+    csets = {tuple(nm) for nm in callable_names}
+    state_decor = []
+    if rng.random() < K.get("state_decor", 0.0):
+        for i, st in enumerate(states):
+            for g in ("enter", "exit"):
+                if st[g] and st[g][-1] in sole and tuple(st[g][-1]) not in csets and rng.random() < 0.6:
+                    state_decor.append([i, g, list(st[g][-1])])
+    decor = None
+    if style == "assign" and rng.random() < K.get("decor", 0.0):
+        cbs = []
+        for j, t in enumerate(trans):
+            for g in ("before", "on", "after", "val"):
+                if t[g] and t[g][-1] in sole and tuple(t[g][-1]) not in csets and rng.random() < 0.5:
+                    cbs.append([j, g, list(t[g][-1])])
+            if (t["cond"] and t["cond"][-1][0] in sole and tuple(t["cond"][-1][0]) not in csets and rng.random() < 0.5
+                    and (not t["cond"][-1][1] or all(b_ for _n, b_ in t["cond"]))):
+                cbs.append([j, "cond" if t["cond"][-1][1] else "unless", list(t["cond"][-1][0])])
+        decor = {"cbs": cbs, "event": None}
+    if rng.random() < K.get("p_clone", 0.0):
+        # from some point on the history continues on a deep copy of the machine (no constructor call after it)
+        pos = rng.randint(1, len(ops))
+        ops = ops[:pos] + [["clone"]] + [op for op in ops[pos:] if op[0] != "construct"]
+    any_group = 0
+    if rng.random() < K.get("any_group", 0.0):
+        # one more event: from every non-final state to one target, with the guards / actions of an
+        # existing transition (declared last; rendered as target.from_.any(...))
+        x = rng.randrange(n)
+        e_any = ne
+        ne += 1
+        kw_any = {"int": False, "val": [], "cond": [], "before": [], "on": [], "after": []}
+        donors = [t for t in trans if not t["int"]]
+        if donors and rng.random() < 0.7:
+            d = rng.choice(donors)
+            kw_any = {"int": False, "val": [list(x_) for x_ in d["val"]],
+                      # (cond entries are registered before unless entries: keep that order)
+                      "cond": sorted([[list(nm), (not b) if rng.random() < 0.5 else b] for nm, b in d["cond"]],
+                                     key=lambda nb: not nb[1]),
+                      "before": [list(x_) for x_ in d["before"]], "on": [list(x_) for x_ in d["on"]],
+                      "after": [list(x_) for x_ in d["after"]]}
+        import copy as _copy
+        for s_ in range(n):
+            if s_ not in finals:
+                trans.append(dict(_copy.deepcopy(kw_any), s=s_, t=x, ev=[e_any]))
+                any_group += 1
+                if mixed is not None:
+                    mixed.append(0)
+        # a decorated / callable name must not be the template's last guard only on some copies: keep the
+        # decorator choices away from these transitions (they are rendered by one from_.any call)
+        if decor:
+            decor["cbs"] = [c for c in decor["cbs"] if c[0] < len(trans) - any_group]
+        ops = [(["send", e_any, op[2]] if (op[0] == "send" and rng.random() < 0.35) else op) for op in ops]
+    hosted = rng.random() < K.get("hosted", 0.0)
+    return {"stop_iter": rng.random() < K.get("stop_iter", 0.0), "any_group": any_group, "hosted": hosted, "callable_names": callable_names, "state_decor": state_decor, "decor": decor,
+            "evstyle": style, "mixed": mixed, "values": values, "async": acoro, "falsy_machine": rng.random() < K["falsy_machine"], "n": n, "initial": initial, "finals": finals, "ne": ne, "trans": trans, "states": states,
             "provs": provs, "start": start, "rtc": rtc, "allow": rng.random() < K["allow"],
             "field0": field0, "tbl": tbl, "ops": ops,
             "falsy_model": rng.random() < K.get("falsy_model", 0.0), "inst_listeners": rng.random() < K.get("inst_listeners", 0.0),
